@@ -20,6 +20,8 @@ enum Tf {
     Null,
     One(String),
     Any(Vec<String>),
+    /// a list with a null inside: the null is not a wildcard there (the code documents it as ignored)
+    AnyWithNull(Vec<Option<String>>),
 }
 
 fn tf_json(t: &Tf) -> Value {
@@ -27,6 +29,7 @@ fn tf_json(t: &Tf) -> Value {
         Tf::Null => Value::Null,
         Tf::One(s) => json!(s),
         Tf::Any(v) => json!(v),
+        Tf::AnyWithNull(v) => json!(v),
     }
 }
 
@@ -50,21 +53,23 @@ fn matches(log: &Value, addr: &Option<String>, topics: &[Tf]) -> bool {
                     return false;
                 }
             }
+            Tf::AnyWithNull(v) => {
+                if lt.len() <= i || !v.iter().flatten().any(|t| *t == lt[i]) {
+                    return false;
+                }
+            }
         }
     }
     true
 }
 
-fn topic_filters(max_len: usize) -> Vec<Vec<Tf>> {
-    // lists that can fail (a single alternative; one alternative that no log carries) as well as one that
-    // always matches: a later list position must not override an earlier failed one
-    let opts = [Tf::Null, Tf::One(topic(1)), Tf::One(topic(2)), Tf::Any(vec![topic(1), topic(2)]), Tf::Any(vec![topic(1)]), Tf::Any(vec![topic(2), topic(3)])];
+fn grid(opts: &[Tf], max_len: usize) -> Vec<Vec<Tf>> {
     let mut all: Vec<Vec<Tf>> = vec![vec![]];
     let mut cur: Vec<Vec<Tf>> = vec![vec![]];
     for _ in 0..max_len {
         let mut next = Vec::new();
         for c in &cur {
-            for o in &opts {
+            for o in opts {
                 let mut n = c.clone();
                 n.push(o.clone());
                 next.push(n);
@@ -73,6 +78,18 @@ fn topic_filters(max_len: usize) -> Vec<Vec<Tf>> {
         all.extend(next.iter().cloned());
         cur = next;
     }
+    all
+}
+
+fn topic_filters(max_len: usize) -> Vec<Vec<Tf>> {
+    // lists that can fail (a single alternative; one alternative that no log carries) as well as one that
+    // always matches: a later list position must not override an earlier failed one
+    let opts = vec![Tf::Null, Tf::One(topic(1)), Tf::One(topic(2)), Tf::Any(vec![topic(1), topic(2)]), Tf::Any(vec![topic(1)]), Tf::Any(vec![topic(2), topic(3)])];
+    let mut all = grid(&opts, max_len);
+    // a list with a null inside, at the first two positions, combined with every other option
+    let mut with_null = opts.clone();
+    with_null.push(Tf::AnyWithNull(vec![None, Some(topic(1))]));
+    all.extend(grid(&with_null, 2.min(max_len)).into_iter().filter(|f| f.iter().any(|t| matches!(t, Tf::AnyWithNull(_)))));
     all
 }
 
